@@ -122,6 +122,19 @@ def run(facts, tr, rep):
             new = peel(tr.operand(tw, cs.args[2], cs.loc))
             ok = False
             detail = "new balance is not `observed - amount`"
+            # idiom: match observed.checked_sub(amount) { Some(new) => CAS(observed, new), None => refuse }
+            nn = new
+            while nn[0] in ("field", "downcast"):
+                if nn[0] == "downcast" and nn[2] != "Some":
+                    break
+                nn = peel(nn[1])
+            if nn[0] == "call" and tr.call_of(nn).name == "checked_sub":
+                cc = tr.call_of(nn)
+                obs = peel(tr.operand(tw, cc.args[0], cc.loc))
+                exp = peel(tr.operand(tw, cs.args[1], cs.loc))
+                if obs == exp:
+                    ok = True
+                    detail = "subtracting CAS uses observed.checked_sub(amount): it exists only when observed >= amount (%s)" % cc.where()
             if new[0] == "binop" and new[1] in ("Sub", "SubWithOverflow", "SubUnchecked") or (new[0] == "field" and peel(new[1])[0] == "binop"):
                 bn = new if new[0] == "binop" else peel(new[1])
                 cur, amt = bn[2], bn[3]
